@@ -23,7 +23,11 @@ impl std::str::FromStr for Signature {
         // It's quite confusing, but let it be... we have to deal with reality.
         if text.contains("\n") {
             // If text is multiline, we assume PGP Public Key block
-            Ok(Signature::KeyBlock(text.to_string()))
+            // The block is printed on the lines following the field name, i.e. with a
+            // leading newline (see `Display`); that newline is not part of the key.
+            Ok(Signature::KeyBlock(
+                text.strip_prefix('\n').unwrap_or(text).to_string(),
+            ))
         } else {
             // otherwise one-liner is a path
             Ok(Signature::KeyPath(text.into()))
